@@ -1,6 +1,7 @@
-(* C10 -- Removal is complete and precise, and existence reports tell the truth.  Statements only. *)
+(* C10 -- Removal is complete and precise, and existence reports tell the truth.
+   Statements only; proofs in Proofs/RemovalProofs.v, Proofs/RemovalProofs2.v; model in Model/Removal.v. *)
 From Coq Require Import NArith List Bool.
-From V Require Import Model.Removal Proofs.RemovalProofs.
+From V Require Import Model.Removal Proofs.RemovalProofs Proofs.RemovalProofs2.
 Import ListNotations.
 Open Scope N_scope.
 
@@ -8,3 +9,138 @@ Open Scope N_scope.
 Theorem refused_unchanged : forall s o s' e, step s o = (s', Err e) -> s' = s.
 Proof. exact refused_unchanged_l. Qed.
 Print Assumptions refused_unchanged.
+
+(* The three existence flags are exactly the three facts: RECORDED <-> a dataset row, DATASTORE <-> a records row,
+   _ARTIFACT <-> the file the records name is present; stored() is the third flag; getDatasetLocations <-> a location row. *)
+Theorem exists_flags_spec : forall s d,
+  (fst (fst (exists_flags s d)) = true <-> exists a, In (d, a) (ds s)) /\
+  (snd (fst (exists_flags s d)) = true <-> exists p, In (d, p) (recs s)) /\
+  (snd (exists_flags s d) = true <-> exists p, rec_path s d = Some p /\ In p (files s)) /\
+  (stored s d = snd (exists_flags s d)) /\
+  (located s d = true <-> In d (loc s)).
+Proof. exact exists_flags_spec_l. Qed.
+Print Assumptions exists_flags_spec.
+
+Theorem artifact_flag_implies_datastore_flag : forall s d, artifact_present s d = true -> has_rec s d = true.
+Proof. exact artifact_implies_known. Qed.
+Print Assumptions artifact_flag_implies_datastore_flag.
+
+(* The registry refuses to forget a dataset that a datastore still holds, and changes nothing. *)
+Theorem registry_refuses_orphan : forall s l d, In d l -> In d (loc s) -> step s (RegRemove l) = (s, Err Orphaned).
+Proof. exact registry_refuses_orphan_l. Qed.
+Print Assumptions registry_refuses_orphan.
+
+Theorem registry_remove_accepts_iff_unheld : forall s l,
+  (exists s', step s (RegRemove l) = (s', Ok)) <-> (forall d, In d l -> ~ In d (loc s)).
+Proof. exact registry_remove_ok_iff. Qed.
+Print Assumptions registry_remove_accepts_iff_unheld.
+
+(* The datastore-bridge invariant (location rows have records, records belong to a location or trash row, the two tables
+   are disjoint) is preserved by every operation except a removeRuns(unstore=False) that forgets a dataset whose location
+   row is pending in the trash table (`safe`), hence holds after every history whose steps are safe. *)
+Theorem wf_preserved : forall s o, wf s -> safe s o = true -> wf (exec s o).
+Proof. exact wf_step. Qed.
+Print Assumptions wf_preserved.
+
+Theorem wf_all_histories : forall h, hist_safe init h = true -> wf (run_hist h).
+Proof. exact wf_reachable. Qed.
+Print Assumptions wf_all_histories.
+
+(* pruneDatasets(purge=True) is never refused (the location rows are in the trash table before the registry deletes). *)
+Theorem purge_never_refused : forall s l tg, snd (step s (Prune l true true true tg)) = Ok.
+Proof. intros. rewrite purge_ok. reflexivity. Qed.
+Print Assumptions purge_never_refused.
+
+(* PURGE IS EXACT: every target is gone from the dataset table, every TAGGED / CALIBRATION collection, the location table,
+   the records table and its artifact is not reported; for every other dataset that is not pending in the trash table
+   everything the interfaces report (three flags, location, run/key row, tag rows, calibration rows) is unchanged. *)
+Theorem purge_exact : forall s l tg s', wf s -> step s (Prune l true true true tg) = (s', Ok) ->
+  (forall d, In d l -> gone s' d) /\
+  (forall d, ~ In d l -> ~ In d (trash s) -> obs s' d = obs s d).
+Proof.
+  intros s l tg s' W H. rewrite purge_ok in H. inversion H. subst s'. split.
+  - intros d Hd. apply purge_targets_gone; assumption.
+  - intros d H1 H2. apply purge_frame; assumption.
+Qed.
+Print Assumptions purge_exact.
+
+Theorem purge_exact_all_histories : forall h l tg s', hist_safe init h = true ->
+  step (run_hist h) (Prune l true true true tg) = (s', Ok) ->
+  (forall d, In d l -> gone s' d) /\
+  (forall d, ~ In d l -> ~ In d (trash (run_hist h)) -> obs s' d = obs (run_hist h) d).
+Proof. intros h l tg s' S H. eapply purge_exact; [apply wf_reachable; exact S | exact H]. Qed.
+Print Assumptions purge_exact_all_histories.
+
+(* UNSTORE ONLY: the registry tables are untouched, every target is unstored, every other non-pending dataset unchanged. *)
+Theorem unstore_only : forall s l tg s', wf s -> step s (Prune l false true false tg) = (s', Ok) ->
+  (colls s' = colls s /\ chains s' = chains s /\ ds s' = ds s /\ tags s' = tags s /\ calibs s' = calibs s) /\
+  (forall d, In d l -> located s' d = false /\ has_rec s' d = false /\ artifact_present s' d = false) /\
+  (forall d, ~ In d l -> ~ In d (trash s) -> obs s' d = obs s d).
+Proof.
+  intros s l tg s' W H. rewrite unstore_ok in H. inversion H. subst s'. split; [apply unstore_registry_same | split].
+  - intros d Hd. apply unstore_targets; assumption.
+  - intros d H1 H2. apply unstore_frame; assumption.
+Qed.
+Print Assumptions unstore_only.
+
+(* DISASSOCIATE ONLY: exactly the (tag, target) rows disappear; nothing else in registry or datastore changes. *)
+Theorem disassociate_only : forall s l tg s', step s (Prune l true false false tg) = (s', Ok) ->
+  colls s' = colls s /\ chains s' = chains s /\ ds s' = ds s /\ calibs s' = calibs s /\ loc s' = loc s /\ trash s' = trash s /\
+  recs s' = recs s /\ files s' = files s /\
+  (forall c d, In (c, d) (tags s') <-> In (c, d) (tags s) /\ ~ (In c tg /\ In d l)).
+Proof. exact disassociate_only_l. Qed.
+Print Assumptions disassociate_only.
+
+(* REMOVE RUNS (partial: completeness and registry precision; the per-dataset frame of the datastore half is the same
+   emptyTrash argument as for purge and is covered by the correspondence and the oracle, not proved here): the runs no
+   longer exist, the surviving dataset rows are exactly old rows of other runs, no dataset of a removed run is located. *)
+Theorem removeRuns_exact_partial : forall s rs u s', step s (RemoveRuns rs u) = (s', Ok) ->
+  (forall r, In r rs -> ctype s' r = None) /\
+  (forall d a, In (d, a) (ds s') -> In (d, a) (ds s) /\ ~ In (fst a) rs) /\
+  (forall d a, In (d, a) (ds s) -> In (fst a) rs -> located s' d = false).
+Proof. exact removeRuns_targets_l. Qed.
+Print Assumptions removeRuns_exact_partial.
+
+(* emptyTrash deletes an artifact only if a trashed record names it and no located dataset's record does. *)
+Theorem empty_trash_deletes_only_unreferenced : forall s p, In p (files s) -> ~ In p (files (empty_trash s)) ->
+  (exists d, In d (trash s) /\ In (d, p) (recs s)) /\ (forall d, In (d, p) (recs s) -> ~ In d (loc s)).
+Proof. exact empty_trash_files. Qed.
+Print Assumptions empty_trash_deletes_only_unreferenced.
+
+(* REFUTED without the invariant: after a history with an unsafe forget (a stale row is left in dataset_location_trash and the
+   same dataset id is stored again) an UNRELATED unstore deletes the records of a bystander: it stays RECORDED and located but
+   the datastore no longer knows it while its artifact is still on disk.  Replayed on the implementation: known finding. *)
+Theorem frame_refuted_by_stale_trash_row : exists h l d,
+  hist_safe init h = false /\ ~ In d l /\
+  exists_flags (run_hist h) d = (true, true, true) /\
+  exists_flags (exec (run_hist h) (Prune l false true false [])) d = (true, false, false) /\
+  located (exec (run_hist h) (Prune l false true false [])) d = true.
+Proof.
+  exists stale_trash_history, [1], 0. destruct stale_trash_row_witness as [A [B [C [_ D]]]].
+  split; [exact D | split; [| split; [exact A | split; [exact B | exact C]]]]. intros [E | []]. discriminate.
+Qed.
+Print Assumptions frame_refuted_by_stale_trash_row.
+
+(* REFUTED: Butler.exists on a ref carrying datastore records reports DATASTORE for a dataset that exists nowhere. *)
+Theorem exists_carried_truthful_refuted : exists h d,
+  snd (fst (exists_flags_carried (run_hist h) d)) = true /\ exists_flags (run_hist h) d = (false, false, false).
+Proof.
+  exists [RegColl 0 Run; Put 0 0 0; Prune [0] true true true []], 0. destruct carried_records_witness as [A B].
+  split; [rewrite A; reflexivity | exact B].
+Qed.
+Print Assumptions exists_carried_truthful_refuted.
+
+(* ---------- non-vacuity ---------- *)
+Definition demo : list op :=
+  [RegColl 0 Run; RegColl 1 Run; RegColl 2 Tagged; RegColl 4 Calib; Put 0 0 0; Put 1 0 1; Put 2 1 0; Tag 2 [0; 1];
+   Certify 4 2 0 5; ExtDelete 0 1; Trash [2]].
+Example demo_safe : hist_safe init demo = true. Proof. vm_compute. reflexivity. Qed.
+Example demo_purge : let s := run_hist demo in let s' := exec s (Prune [0] true true true []) in
+  exists_flags s 0 = (true, true, true) /\ exists_flags s' 0 = (false, false, false) /\
+  exists_flags s' 1 = (true, true, false) /\ obs s' 1 = obs s 1 /\ In 2 (trash s) /\ trash s' = [].
+Proof. vm_compute. repeat split; try reflexivity. left. reflexivity. Qed.
+Example demo_orphan : snd (step (run_hist demo) (RegRemove [1])) = Err Orphaned. Proof. vm_compute. reflexivity. Qed.
+Example demo_disassociate : tags (exec (run_hist demo) (Prune [0] true false false [2])) = [(2, 1)]. Proof. vm_compute. reflexivity. Qed.
+Example demo_removeRuns : let s' := exec (run_hist demo) (RemoveRuns [0] true) in
+  ds s' = [(2, (1, 0))] /\ ctype s' 0 = None /\ tags s' = [].
+Proof. vm_compute. repeat split; reflexivity. Qed.
